@@ -47,7 +47,11 @@ def ty_rs(t):
     if k == "result": return f"Result<{ty_rs(t['a'])}, {ty_rs(t['b'])}>"
     if k == "range": return f"std::ops::{t.get('impl', 'Range')}<{ty_rs(t['t'])}>"
     if k == "wrap": return WRAP[t["w"]].format(ty_rs(t["t"]))
-    if k == "named": return t["id"] + ("<" + ", ".join(ty_rs(a) for a in t["args"]) + ">" if t["args"] else "")
+    if k == "named":
+        args = [ty_rs(a) for a in t["args"]]
+        for pos, val in sorted(t.get("cargs", [])):      # const generic arguments, at their positions in the parameter list
+            args.insert(pos, "{ " + str(val) + " }")
+        return t["id"] + ("<" + ", ".join(args) + ">" if args else "")
     if k == "param": return t["n"]
     raise ValueError(k)
 
@@ -167,7 +171,10 @@ def item_rs(it):
         T = [x for x in S if x not in a.get("serde_bare_first", [])] + T
         S = []
     gens = it.get("generics", [])
-    g = "<" + ", ".join(p["name"] + (f" = {ty_rs(p['default'])}" if p.get("default") else "") for p in gens) + ">" if gens else ""
+    gl = [p["name"] + (f" = {ty_rs(p['default'])}" if p.get("default") else "") for p in gens]
+    for c in sorted(it.get("cgen", []), key=lambda c: c["pos"]):     # const generic parameters (the model has type parameters only)
+        gl.insert(c["pos"], f"const {c['name']}: {c['ty']}" + (f" = {c['default']}" if c.get("default") is not None else ""))
+    g = "<" + ", ".join(gl) + ">" if gl else ""
     head = docs_rs(a.get("docs")) + f"#[derive({', '.join(derives)})] " + attr_list("serde", S) + attr_list("ts", T)
     if a.get("concrete") and a.get("concrete_split"):
         # one `#[ts(concrete(..))]` attribute per concretised parameter (the lists of several attributes accumulate)
